@@ -29,7 +29,7 @@ type root struct {
 	why    string
 }
 
-func freshRoot() root { return root{kind: rFresh} }
+func freshRoot() root            { return root{kind: rFresh} }
 func sharedRoot(why string) root { return root{kind: rShared, why: why} }
 func paramRoot(p *ssa.Parameter) root {
 	return root{kind: rParam, params: map[*ssa.Parameter]bool{p: true}}
